@@ -436,6 +436,47 @@ def _case(name, rng):
 
 _TRI = {"N": None, "T": True, "F": False}
 
+# class properties declared with the initializer NULL come from the real
+# compiler (`<type> P = NULL;`), one compile per (type, shape)
+_NULL_PROPS = {}
+NULL_PRIME = {"compiled": 0, "fallback": 0}
+
+
+def mof_null_prop(name, typ, arr, asize, ref):
+    """CIMProperty `name` as the MOF compiler declares it for
+    `<type> name = NULL;`; None if that cannot be had (the caller then
+    declares the property directly with value None)"""
+    key = (typ, bool(arr), asize, (ref or "").lower())
+    if key not in _NULL_PROPS:
+        ns = "root/nulldflt"
+        try:
+            conn = MOFWBEMConnection()
+            mc = MOFCompiler(conn, verbose=False, log_func=None)
+            if ref:
+                conn.CreateClass(CIMClass(ref), namespace=ns)
+            tn = "%s REF" % ref if typ == "reference" else typ
+            dim = "" if not arr else "[%s]" % ("" if asize is None else asize)
+            mc.compile_string("class NullDflt {\n  %s P%s = NULL;\n};\n" %
+                              (tn, dim), ns)
+            cp = conn.classes[ns]["NullDflt"].properties["P"]
+            if cp.value is not None or cp.type != typ or \
+                    bool(cp.is_array) != bool(arr):
+                raise ValueError(repr(cp))
+            cp = cp.copy()
+            cp.class_origin = None
+            cp.propagated = None
+            _NULL_PROPS[key] = cp
+            NULL_PRIME["compiled"] += 1
+        except Exception:  # noqa: priming is harness business
+            _NULL_PROPS[key] = None
+            NULL_PRIME["fallback"] += 1
+    cp = _NULL_PROPS[key]
+    if cp is None:
+        return None
+    cp = cp.copy()
+    cp.name = name
+    return cp
+
 
 class Build:
     """Concretises one spec.  Collects the qualifier declarations and classes
@@ -449,6 +490,10 @@ class Build:
         self.classes = []      # primed classes, dependency order
         self._primed = set()
         self.strings = []      # (classes, concrete) of every string value
+        self.cd = {}           # top-level instance: lower property name ->
+                               # (kind, concrete class default)
+        self.declared = []     # lower names of class-declared properties
+                               # the top-level instance does not have
 
     # -- values ---------------------------------------------------------------
     def scalar(self, v, typ):
@@ -561,32 +606,68 @@ class Build:
                                qualifiers=self.quals(m["quals"]))
                      for m in c["meths"]])
 
+    def _class_prop(self, sp, p):
+        """the declaration of instance property `sp` in the primed class:
+        type/shape of the instance property `p`, the default that the
+        abstract class default `sp["cd"]` says (MofTextInst.tla: none | null |
+        scalar | array).  -> (CIMProperty, kind, concrete default)"""
+        cd = sp.get("cd") or {"kind": "none", "val": None}
+        kind = cd["kind"]
+        dflt = None
+        if kind in ("scalar", "array"):
+            dflt = self.value(cd["val"], sp["type"])
+            if sp.get("emb"):
+                # the class default of an embedded-object property is MOF
+                # text in a string (what the compiler makes of the class)
+                dflt = ([x.tomof() for x in dflt] if isinstance(dflt, list)
+                        else dflt.tomof())
+        quals = []
+        if sp.get("emb") == "instance":
+            vals = sp["val"] if isinstance(sp["val"], list) else [sp["val"]]
+            ecls = ([v for v in vals if v is not None] or
+                    [{"inst": {"cls": "EmbCls"}}])[0]["inst"]["cls"]
+            q = {"name": "EmbeddedInstance", "type": "string",
+                 "arr": False, "decl": {"ovr": "N", "tosub": "N",
+                                        "transl": "N", "toinst": "N"}}
+            self.prime_qual(q)
+            self.prime_plain_class(ecls)    # unless primed with properties
+            quals.append(CIMQualifier("EmbeddedInstance", ecls,
+                                      type="string"))
+        elif sp.get("emb") == "object":
+            q = {"name": "EmbeddedObject", "type": "boolean",
+                 "arr": False, "decl": {"ovr": "N", "tosub": "N",
+                                        "transl": "N", "toinst": "N"}}
+            self.prime_qual(q)
+            quals.append(CIMQualifier("EmbeddedObject", True))
+        if kind == "null":
+            cp = mof_null_prop(sp["name"], p.type, p.is_array, p.array_size,
+                               p.reference_class)
+            if cp is not None:
+                cp.qualifiers = quals
+                return cp, kind, None
+        cp = CIMProperty(
+            sp["name"], dflt, type=p.type, is_array=p.is_array,
+            array_size=p.array_size, reference_class=p.reference_class,
+            qualifiers=quals)
+        return cp, kind, dflt
+
     def instance(self, i, embedded=False):
-        """builds the instance and primes its class (declared from the
-        instance's own properties)"""
+        """builds the instance and primes its class: declared from the
+        instance's own properties (+ the properties of `decl`, which the
+        class declares and the instance does not have), each with the class
+        default its `cd` asks for"""
         props = [self.prop(p, with_quals=False) for p in i["props"]]
+        absent = [] if embedded else list(i.get("decl", []))
         cprops = []
-        for p, sp in zip(props, i["props"]):
-            quals = []
-            if sp.get("emb") == "instance":
-                ecls = (sp["val"][0] if isinstance(sp["val"], list)
-                        else sp["val"])["inst"]["cls"]
-                q = {"name": "EmbeddedInstance", "type": "string",
-                     "arr": False, "decl": {"ovr": "N", "tosub": "N",
-                                            "transl": "N", "toinst": "N"}}
-                self.prime_qual(q)
-                quals.append(CIMQualifier("EmbeddedInstance", ecls,
-                                          type="string"))
-            elif sp.get("emb") == "object":
-                q = {"name": "EmbeddedObject", "type": "boolean",
-                     "arr": False, "decl": {"ovr": "N", "tosub": "N",
-                                            "transl": "N", "toinst": "N"}}
-                self.prime_qual(q)
-                quals.append(CIMQualifier("EmbeddedObject", True))
-            cprops.append(CIMProperty(
-                sp["name"], None, type=p.type, is_array=p.is_array,
-                array_size=p.array_size, reference_class=p.reference_class,
-                qualifiers=quals))
+        for p, sp in list(zip(props, i["props"])) + [
+                (self.prop(dict(a, val=None), with_quals=False), a)
+                for a in absent]:
+            cp, kind, dflt = self._class_prop(sp, p)
+            cprops.append(cp)
+            if not embedded:
+                self.cd[sp["name"].lower()] = (kind, dflt)
+        if not embedded:
+            self.declared = [a["name"].lower() for a in absent]
         if i["cls"].lower() not in self._primed:
             self._primed.add(i["cls"].lower())
             self.classes.append(CIMClass(i["cls"], properties=cprops))
@@ -710,7 +791,8 @@ def elem(path, et, typ="", arr=None, asize=None, ref=None, emb=None,
             "emb": emb or "", "super": _lc(sup), "isnull": isnull,
             "val": toks, "ovr": f[0], "tosub": f[1], "transl": f[2],
             "toinst": f[3], "dovr": d[0], "dtosub": d[1], "dtransl": d[2],
-            "dtoinst": d[3], "scopes": sorted(scopes)}
+            "dtoinst": d[3], "scopes": sorted(scopes),
+            "cd": {"kind": "", "isnull": True, "val": []}}
 
 
 def qual_elems(base, quals, declflv):
@@ -883,7 +965,17 @@ def run_obj(spec, comp):
     declflv = b.declflv
     ev = {"op": "obj", "kind": spec["k"], "maxline": spec["maxline"],
           "orig": elems_of(orig, declflv), "comp": [], "accepted": False,
-          "generated": True, "lit": dict(NO_LIT)}
+          "generated": True, "lit": dict(NO_LIT), "declared": []}
+    if isinstance(orig, CIMInstance):
+        # what the primed class declares as default for each property
+        base = "inst:%s" % orig.classname.lower()
+        for el in ev["orig"]:
+            kd = b.cd.get(el["path"][len(base) + 3:]) \
+                if el["et"] == "prop" else None
+            if kd:
+                isnull, toks = val_tokens(kd[1], el["type"])
+                el["cd"] = {"kind": kd[0], "isnull": isnull, "val": toks}
+        ev["declared"] = ["%s/p:%s" % (base, n) for n in b.declared]
     info = {"orig": repr(orig)[:1500]}
     try:
         text = orig.tomof(spec["maxline"])
@@ -937,6 +1029,19 @@ def _shape_of(val, arr):
     return "scalar"
 
 
+# the property that keeps an instance expressible in MOF when the property
+# under test is absent (the class declares no default for it)
+ANCHOR = {"name": "UAnchor", "type": "uint8", "arr": False, "asize": -1,
+          "ref": "", "val": {"n": "1"}, "emb": "", "quals": []}
+
+
+def cd_suffix(p):
+    """position suffix of an instance property whose class declares
+    something else than "no default" (signatures)"""
+    kind = (p.get("cd") or {}).get("kind", "none")
+    return "" if kind == "none" else ".classdflt-" + kind
+
+
 def slices(spec):
     """[(where, type, shape, unit spec)]"""
     out = []
@@ -980,7 +1085,13 @@ def slices(spec):
             u = {"k": "inst", "cls": spec["cls"], "props": [p]}
             u.update(base)
             where = "instprop" if not p.get("emb") else "instemb"
-            out.append((where, p["type"], _shape_of(p["val"], p["arr"]), u))
+            out.append((where + cd_suffix(p), p["type"],
+                        _shape_of(p["val"], p["arr"]), u))
+        for a in spec.get("decl", []):
+            u = {"k": "inst", "cls": spec["cls"], "props": [dict(ANCHOR)],
+                 "decl": [a]}
+            u.update(base)
+            out.append(("instprop" + cd_suffix(a), a["type"], "absent", u))
     else:
         out.append(("qdecl", spec["type"],
                     _shape_of(spec["val"], spec["arr"]), spec))
